@@ -12,6 +12,13 @@ Oracle on the real code (independent of the Lean model):
     family name, type, help and unit unchanged and empty families dropped  (when every registered collector's sample
     names are among the names it claims — otherwise the registry cannot know the collector, and only T2 applies)
   * collect() is invoked only on collectors claiming one of the names, at most once each
+  * re-entrancy (oracle only, single-threaded): a collector whose collect() registers / unregisters another collector,
+    unregisters itself or sets target info while the registry is being collected: collect() must not raise and follows
+    SNAPSHOT semantics — it yields the collectors registered at the moment it took its snapshot (what the model's
+    `collect s` computes for that state); the side effect is an ordinary call of the history and shows in the next collect
+  * restricted-registry OBJECTS are long-lived: objects are made at arbitrary points of the history, kept, and collected
+    through after EVERY later call; each time the result must be the filter of the CURRENT full collection and the calls
+    must go to CURRENT claimants only (an object resolves its names at collect() time, it holds no registry data)
 T2: the same history + name sets go to the driver (module "c06"); restricted families, call sets and the spec filter are
 compared.
 """
@@ -127,6 +134,16 @@ FIXED = [
 ]
 
 
+KEPT_CORPUS = [
+    # one long-lived restricted registry, collected, then a collector it matched is unregistered, collected again
+    {'ad': False, 'ti': None, 'collectors': [
+        {'id': 1, 'kind': 'custom', 'describe': [['x', 'counter']], 'families': [fam_with_unit(100, 'x', 'counter', '')]},
+        {'id': 2, 'kind': 'custom', 'describe': [['y_sec', 'gauge']], 'families': [fam_with_unit(200, 'y', 'gauge', 'sec')]}],
+     'ops': [['r', 1], ['r', 2], ['u', 1], ['u', 2], ['r', 1], ['t', {'a': 'b'}], ['t', None]],
+     'watch': [[0, ['x_total']], [1, ['x_total', 'y_sec']], [2, ['y_sec', 'target_info']], [3, ['x_total', 'x_created']]]},
+]
+
+
 def parse_fam(e):
     f = e.split(':')
     return f[:4], ([] if f[4] == '_' else f[4].split('+'))
@@ -177,13 +194,75 @@ class Runner:
         if n < MAX_REPORTS_PER_SIG:
             self.ctx.fail(sig, what, case)
 
-    def one(self, case, namesets=None, n_random_sets=8):
+    def query(self, prep, case, rr, names, regs, ti, full, covers, exact_ok, kept=None):
+        """collect through the restricted-registry object `rr` NOW and evaluate the oracle against the CURRENT full
+        collection `full` / CURRENT registered collectors `regs`.  `kept` = (made after k calls, queried after j calls)
+        for a long-lived object, None for one made for this query.  Returns (families, calls, expected filter) or None."""
+        ctx = self.ctx
+        ns = set(names)
+        if kept is None:
+            rcase = dict(case, namesets=[sorted(ns)], watch=[])
+            where = 'names %r' % sorted(ns)
+        else:
+            rcase = dict(case, ops=case['ops'][:kept[1]], namesets=[], watch=[[kept[0], sorted(ns)]])
+            where = ('names %r, restricted registry made after %d call(s) and collected again after %d call(s) [%s]'
+                     % (sorted(ns), kept[0], kept[1], ' '.join(map(base.enc_op, rcase['ops']))))
+        del prep.log[:]
+        try:
+            res = [prep.enc_family(m) for m in rr.collect()]
+        except Exception as e:  # noqa
+            self.fail('C07:restricted-raises', '%s: collect() raised %s' % (where, type(e).__name__), rcase)
+            return None
+        calls = list(prep.log)
+        full_ti = full[:1] if ti else []
+        expected = filt(full, ns)
+        proper = bool(res) and len(expected) < len(full)
+        ctx.case(nontrivial_key=hash((tuple(full), tuple(sorted(ns)), kept is not None)) if proper else None,
+                 sample={'registered': regs, 'target_info': ti, 'names': sorted(ns), 'kept_object': kept,
+                         'full': [bytes.fromhex(e.split(':')[0]).decode() for e in full],
+                         'restricted': [bytes.fromhex(e.split(':')[0]).decode() for e in res], 'calls': calls})
+        ctx.count('nameset-size-%d' % min(len(ns), 8) if kept is None else 'kept-object-queries')
+        # calls only on (current) claimants
+        claimants = [cid for cid in regs if set(prep.claims(cid)) & ns]
+        extra = [c for c in calls if c not in claimants]
+        if extra or len(set(calls)) != len(calls):
+            self.fail('C07:restricted-calls-non-claimant', '%s: collect() invoked on %r, claimants are %r'
+                      % (where, calls, claimants), rcase)
+        if not covers or not exact_ok:
+            return res, calls, expected
+        A, E = sorted(res), sorted(expected)
+        if A == E:
+            return res, calls, expected
+        if sorted(map(strip_unit, A)) == sorted(map(strip_unit, E)):
+            lost = [e for e in E if e not in A]
+            self.fail(SIG_F5, '%s: restricted family differs from the full collection only in its unit: expected %r, got %r'
+                      % (where, show(lost[:2]), show([a for a in A if a not in E][:2])), rcase)
+            return res, calls, expected
+        explained = False
+        if 'target_info' in ns:
+            E2 = list(filt(full_ti, ns))
+            skipped = []
+            for cid in regs:
+                emits = any(s.name == 'target_info' for m in prep.fams[cid] for s in m.samples)
+                if emits and not ((set(prep.claims(cid)) & ns) - {'target_info'}):
+                    skipped.append(cid)
+                    continue
+                E2 += filt(prep.enc_fams[cid], ns)
+            if skipped and sorted(map(strip_unit, A)) == sorted(map(strip_unit, E2)):
+                explained = True
+                self.fail(SIG_F19, '%s: collector(s) %r claim target_info and emit a sample of that name, the full '
+                          'collection has it, the restricted registry yields %r' % (where, skipped, show(A)), rcase)
+                if sorted(A) != sorted(E2):
+                    self.fail(SIG_F5, '%s: (besides the target_info case) unit lost' % where, rcase)
+        if not explained:
+            self.fail('C07:restricted-not-filter', '%s: restricted collect yields %r, the filter of the current full collection is %r'
+                      % (where, show(A), show(E)), rcase)
+        return res, calls, expected
+
+    def one(self, case, namesets=None, n_random_sets=8, watch=None, n_random_watch=3):
         ctx = self.ctx
         prep = base.Prepared(case)
-        c06_fails = []
-        obs, reg = base.run_history(prep, case['ops'], lambda sig, what, step: c06_fails.append(sig))
-        for s in c06_fails:
-            ctx.count('c06-oracle-' + s)
+        all_ids = [c['id'] for c in case['collectors']]
         # ---- every built-in metric object covers its claims (theorem builtin_claims_cover, checked on the real classes)
         for c in case['collectors']:
             if c['kind'] == 'builtin':
@@ -192,19 +271,33 @@ class Runner:
                     self.fail('C07:builtin-claims-do-not-cover', '%s(%r) emits %s, claims %s' % (
                         c['cls'], c['name'], sorted(emitted), sorted(set(prep.claims(c['id'])))), dict(case, namesets=[]))
                 ctx.count('builtin-cover-checked-' + c['cls'])
-        # ---- collect is complete and exact, after every call
-        regs, ti = [], case['ti']
-        exact_ok = True
-        for i, (op, o) in enumerate(zip(case['ops'], obs)):
-            if o.err == 'ok':
-                if op[0] == 'r' and op[1] not in regs:
-                    regs.append(op[1])
+        # ---- kept restricted-registry objects: made after k calls, collected after every later call
+        if watch is None:
+            watch = case.get('watch')
+        if watch is None:
+            uni = name_universe(prep, all_ids)
+            watch = []
+            for _ in range(n_random_watch):
+                k = ctx.rng.randrange(0, len(case['ops']) + 1)
+                kk = ctx.rng.choice([1, 1, 2, 3, 5])
+                watch.append([k, sorted(set(ctx.rng.choice(uni) for _ in range(kk)))])
+        watch = sorted(([k, list(ns)] for k, ns in watch), key=lambda w: w[0])
+        st = {'regs': [], 'ti': case['ti'], 'exact_ok': True, 'covers': True, 'full': []}
+        kept = []          # [k, names, object, results per state]
+
+        def after_step(j, op, err, reg, snap):
+            # -- the reference registration list, driven by the calls and whether they raised
+            if op is not None and err == 'ok':
+                if op[0] == 'r' and op[1] not in st['regs']:
+                    st['regs'] = st['regs'] + [op[1]]
                 elif op[0] == 'u':
-                    regs = [c for c in regs if c != op[1]]
+                    st['regs'] = [c for c in st['regs'] if c != op[1]]
                 elif op[0] == 't':
-                    ti = op[1]
+                    st['ti'] = op[1]
+            regs, ti = st['regs'], st['ti']
+            # -- collect is complete and exact, after every call
             want = [e for cid in regs for e in prep.enc_fams[cid]]
-            got = o.fams
+            got = snap[0]
             bad = None
             if ti:
                 if not got or not ti_family_ok(got[0], ti):
@@ -212,77 +305,37 @@ class Runner:
                 got = got[1:]
             if bad is None and got != want:
                 bad = 'collect() yields %r, registered collectors %r yield %r' % (show(got), regs, show(want))
-            if bad is None and o.calls != regs:
-                bad = 'collect() invoked collectors %r, registered in order %r' % (o.calls, regs)
-            if bad and exact_ok:
-                exact_ok = False
-                c = dict(case, ops=case['ops'][:i + 1], namesets=[])
+            if bad is None and snap[1] != regs:
+                bad = 'collect() invoked collectors %r, registered in order %r' % (snap[1], regs)
+            if bad and st['exact_ok']:
+                st['exact_ok'] = False
+                c = dict(case, ops=case['ops'][:j], namesets=[], watch=[])
                 self.fail('C07:collect-not-exact', 'after %s: %s' % (' '.join(map(base.enc_op, c['ops'])), bad), c)
-        # ---- restricted registry
-        universe = name_universe(prep, regs)
+            st['full'] = snap[0]
+            st['covers'] = all(set(s.name for m in prep.fams[cid] for s in m.samples) <= set(prep.claims(cid)) for cid in regs)
+            # -- objects made now
+            for k, ns in watch:
+                if k == j:
+                    kept.append([k, ns, reg.restricted_registry(list(ns)), []])
+            # -- every kept object must reflect the registry as it is NOW
+            for w in kept:
+                w[3].append(self.query(prep, case, w[2], w[1], regs, ti, st['full'], st['covers'], st['exact_ok'],
+                                       kept=(w[0], j)))
+
+        c06_fails = []
+        obs, reg = base.run_history(prep, case['ops'], lambda sig, what, step: c06_fails.append(sig), after_step=after_step)
+        for s in c06_fails:
+            ctx.count('c06-oracle-' + s)
+        regs, ti = st['regs'], st['ti']
+        # ---- restricted registries made for the query, on the final registry
         if namesets is None:
-            namesets = random_namesets(ctx.rng, universe, n_random_sets)
-        full = obs[-1].fams if obs else [prep.enc_family(m) for m in reg.collect()]
-        full_ti = full[:1] if ti else []
-        covers = all(set(s.name for m in prep.fams[cid] for s in m.samples) <= set(prep.claims(cid)) for cid in regs)
-        ctx.count('registry-claims-cover' if covers else 'registry-claims-do-not-cover')
-        results = []
-        for names in namesets:
-            ns = set(names)
-            del prep.log[:]
-            try:
-                res = [prep.enc_family(m) for m in reg.restricted_registry(list(names)).collect()]
-            except Exception as e:  # noqa
-                self.fail('C07:restricted-raises', 'restricted_registry(%r).collect() raised %s' % (names, type(e).__name__),
-                          dict(case, namesets=[names]))
-                results.append(None)
-                continue
-            calls = list(prep.log)
-            expected = filt(full, ns)
-            results.append((res, calls, expected))
-            proper = bool(res) and len(expected) < len(full)
-            ctx.case(nontrivial_key=hash((tuple(full), tuple(sorted(ns)))) if proper else None,
-                     sample={'registered': regs, 'target_info': ti, 'names': sorted(ns),
-                             'full': [bytes.fromhex(e.split(':')[0]).decode() for e in full],
-                             'restricted': [bytes.fromhex(e.split(':')[0]).decode() for e in res], 'calls': calls})
-            ctx.count('nameset-size-%d' % min(len(ns), 8))
-            rcase = dict(case, namesets=[sorted(ns)])
-            # calls only on claimants
-            claimants = [cid for cid in regs if set(prep.claims(cid)) & ns]
-            extra = [c for c in calls if c not in claimants]
-            if extra or len(set(calls)) != len(calls):
-                self.fail('C07:restricted-calls-non-claimant', 'names %r: collect() invoked on %r, claimants are %r'
-                          % (sorted(ns), calls, claimants), rcase)
-            if not covers or not exact_ok:
-                continue
-            A, E = sorted(res), sorted(expected)
-            if A == E:
-                continue
-            if sorted(map(strip_unit, A)) == sorted(map(strip_unit, E)):
-                lost = [e for e in E if e not in A]
-                self.fail(SIG_F5, 'names %r: restricted family differs from the full collection only in its unit: expected %r, got %r'
-                          % (sorted(ns), show(lost[:2]), show([a for a in A if a not in E][:2])), rcase)
-                continue
-            explained = False
-            if 'target_info' in ns:
-                E2 = list(filt(full_ti, ns))
-                skipped = []
-                for cid in regs:
-                    emits = any(s.name == 'target_info' for m in prep.fams[cid] for s in m.samples)
-                    if emits and not ((set(prep.claims(cid)) & ns) - {'target_info'}):
-                        skipped.append(cid)
-                        continue
-                    E2 += filt(prep.enc_fams[cid], ns)
-                if skipped and sorted(map(strip_unit, A)) == sorted(map(strip_unit, E2)):
-                    explained = True
-                    self.fail(SIG_F19, 'names %r: collector(s) %r claim target_info and emit a sample of that name, the full '
-                              'collection has it, the restricted registry yields %r' % (sorted(ns), skipped, show(A)), rcase)
-                    if sorted(A) != sorted(E2):
-                        self.fail(SIG_F5, 'names %r: (besides the target_info case) unit lost' % sorted(ns), rcase)
-            if not explained:
-                self.fail('C07:restricted-not-filter', 'names %r: restricted collect yields %r, the filter of the full collection is %r'
-                          % (sorted(ns), show(A), show(E)), rcase)
-        self.pending.append((dict(case, namesets=[sorted(set(n)) for n in namesets]), prep.request(namesets=namesets), obs, results))
+            namesets = random_namesets(ctx.rng, name_universe(prep, regs), n_random_sets)
+        ctx.count('registry-claims-cover' if st['covers'] else 'registry-claims-do-not-cover')
+        results = [self.query(prep, case, reg.restricted_registry(list(names)), names, regs, ti, st['full'], st['covers'],
+                              st['exact_ok']) for names in namesets]
+        wreq = [(w[0], w[1]) for w in kept]
+        self.pending.append((dict(case, namesets=[sorted(set(n)) for n in namesets], watch=[[k, ns] for k, ns in wreq]),
+                             prep.request(namesets=namesets, watch=wreq), obs, results, [w[3] for w in kept]))
         if len(self.pending) >= 500:
             self.flush()
 
@@ -292,12 +345,148 @@ class Runner:
             return
         replies = ctx.driver.run([p[1] for p in self.pending])
         if replies is not None:
-            for (case, _, obs, results), rep in zip(self.pending, replies):
+            for (case, _, obs, results, wres), rep in zip(self.pending, replies):
                 ctx.traces += 1
-                why = base.compare_steps(rep, obs) or compare_restricted(rep, results)
+                why = base.compare_steps(rep, obs) or compare_restricted(rep, results) or compare_kept(rep, wres)
                 if why:
                     ctx.diverge(why, case)
         self.pending = []
+
+
+# ------------------------------------------------------------------------------------------------ re-entrant collectors
+def reentrant_case(rng):
+    """a registry of plain gauge collectors c0..ck plus one collector R whose collect() — when armed — registers or
+    unregisters another collector, unregisters itself, or sets target info (single-threaded, deterministic)"""
+    k = rng.randrange(2, 6)
+    names = ['c%d' % i for i in range(k)]
+    registered = [n for n in names if rng.random() < 0.7]
+    pos = rng.randrange(0, len(registered) + 1)
+    order = registered[:pos] + ['R'] + registered[pos:]
+    unregistered = [n for n in names if n not in registered]
+    acts = [['unregister', 'R'], ['target_info', {'a': 'b'}]]
+    acts += [['unregister', n] for n in registered]
+    acts += [['register', n] for n in unregistered]
+    return {'kind': 'reentrant', 'names': names, 'order': order, 'action': rng.choice(acts),
+            'restricted': rng.random() < 0.4, 'ti': rng.choice([None, {'z': '1'}])}
+
+
+def run_reentrant(runner, case):
+    from prometheus_client.registry import CollectorRegistry
+    from prometheus_client.metrics_core import GaugeMetricFamily
+    ctx = runner.ctx
+    log = []
+
+    class Plain:
+        def __init__(self, name):
+            self.name = name
+
+        def describe(self):
+            return [GaugeMetricFamily(self.name, 'h')]
+
+        def collect(self):
+            log.append(self.name)
+            return [GaugeMetricFamily(self.name, 'h', value=1)]
+
+    class Reentrant(Plain):
+        armed = False
+
+        def collect(self):
+            out = Plain.collect(self)
+            if self.armed:
+                self.armed = False
+                kind, arg = case['action']
+                if kind == 'register':
+                    reg.register(objs[arg])
+                elif kind == 'unregister':
+                    reg.unregister(objs[arg])
+                else:
+                    reg.set_target_info(arg)
+            return out
+
+    reg = CollectorRegistry(auto_describe=False, target_info=case['ti'])
+    objs = {n: Plain(n) for n in case['names']}
+    objs['R'] = Reentrant('R')
+    for n in case['order']:
+        reg.register(objs[n])
+    before = list(case['order'])
+    ti_before = case['ti']
+    kind, arg = case['action']
+    after = list(before)
+    ti_after = ti_before
+    if kind == 'register':
+        after.append(arg)
+    elif kind == 'unregister':
+        after.remove(arg)
+    else:
+        ti_after = arg
+    sel = None
+    if case['restricted']:
+        sel = sorted(set(['R'] + ([arg] if kind != 'target_info' else []) + case['names'][:1]))
+    objs['R'].armed = True
+    del log[:]
+    what = 'collectors registered in order %r, collect() of R does %s(%r)%s' % (
+        before, kind, arg, '' if sel is None else ', through restricted_registry(%r)' % sel)
+    ctx.case(nontrivial_key=hash(('reentrant', tuple(before), kind, str(arg), case['restricted'])),
+             sample={'reentrant': what})
+    ctx.count('reentrant-%s%s' % (kind, '-restricted' if sel else ''))
+    try:
+        got = [m.name for m in (reg.restricted_registry(sel) if sel else reg).collect()]
+    except Exception as e:  # noqa
+        runner.fail('C07:collect-reentrant-raises', '%s: collect() raised %s: %s' % (what, type(e).__name__, e), case)
+        return
+    # snapshot semantics: the collectors registered (and target info configured) when collect() took its snapshot
+    if sel is None:
+        want = (['target'] if ti_before else []) + before
+        ok = got == want and log == before
+    else:
+        want = [n for n in before if n in sel]
+        ok = sorted(got) == sorted(want) and sorted(log) == sorted(want)
+    if not ok:
+        runner.fail('C07:collect-reentrant-not-snapshot', '%s: yielded %r (called %r), the collectors registered at the snapshot '
+                    'are %r' % (what, got, log, want), case)
+        return
+    # and the next full collection follows the registry as the re-entrant call left it
+    del log[:]
+    got2 = [m.name for m in reg.collect()]
+    want2 = (['target'] if ti_after else []) + after
+    if got2 != want2 or log != after:
+        runner.fail('C07:collect-not-exact', '%s; the NEXT collect() yields %r (called %r), registered now: %r'
+                    % (what, got2, log, want2), case)
+
+
+def compare_section(sec, r):
+    res, calls, expected = r
+    m_f, m_c, m_s = sec.split('!')
+    mf = [] if m_f == '.' else m_f.split(',')
+    mc = [] if m_c == '.' else [c for c in m_c.split(',') if c != 'E']     # E = the _EmptyCollector of target info
+    ms = [] if m_s == '.' else m_s.split(',')
+    if sorted(mf) != sorted(res):
+        return 'restricted families model %r, implementation %r' % (sorted(mf), sorted(res))
+    if sorted(mc) != sorted(str(c) for c in calls):
+        return 'restricted collect() calls model %r, implementation %r' % (sorted(mc), sorted(calls))
+    if ms != expected:
+        return 'spec filter (driver) %r, harness filter of the real full collection %r' % (ms, expected)
+    return None
+
+
+def compare_kept(reply, wres):
+    parts = reply.split(' ')
+    if len(parts) != 4:
+        return 'driver reply has no kept-object part: %r' % reply[:120]
+    ws = [] if parts[3] == '.' else parts[3].split(';')
+    if len(ws) != len(wres):
+        return 'driver returned %d kept objects for %d' % (len(ws), len(wres))
+    for i, (w, rs) in enumerate(zip(ws, wres)):
+        secs = [] if w == '.' else w.split('|')
+        if len(secs) != len(rs):
+            return 'kept object %d: driver has %d states, harness %d' % (i, len(secs), len(rs))
+        for j, (sec, r) in enumerate(zip(secs, rs)):
+            if r is None:
+                continue
+            why = compare_section(sec, r)
+            if why:
+                return 'kept object %d, %d-th collection through it: %s' % (i, j, why)
+    return None
 
 
 def compare_restricted(reply, results):
@@ -308,17 +497,9 @@ def compare_restricted(reply, results):
     for i, (sec, r) in enumerate(zip(secs, results)):
         if r is None:
             continue
-        res, calls, expected = r
-        m_f, m_c, m_s = sec.split('!')
-        mf = [] if m_f == '.' else m_f.split(',')
-        mc = [] if m_c == '.' else [c for c in m_c.split(',') if c != 'E']     # E = the _EmptyCollector of target info
-        ms = [] if m_s == '.' else m_s.split(',')
-        if sorted(mf) != sorted(res):
-            return 'name set %d: restricted families model %r, implementation %r' % (i, sorted(mf), sorted(res))
-        if sorted(mc) != sorted(str(c) for c in calls):
-            return 'name set %d: restricted collect() calls model %r, implementation %r' % (i, sorted(mc), sorted(calls))
-        if ms != expected:
-            return 'name set %d: spec filter (driver) %r, harness filter of the real full collection %r' % (i, ms, expected)
+        why = compare_section(sec, r)
+        if why:
+            return 'name set %d: %s' % (i, why)
     return None
 
 
@@ -328,14 +509,20 @@ def run(ctx):
                 'Timestamp timestamps, exemplars, repeated sample names (buckets), describe present/absent/disagreeing, '
                 'samples outside the claims, and built-in Counter/Gauge/Summary/Histogram/Info/Enum; name sets: two fixed '
                 'registries x all 256 subsets of 8 names (family names, sample names, claimed-but-not-emitted, unknown, '
-                'target_info), plus random subsets of sample names + family names + claimed names + unknown names. An '
+                'target_info), plus random subsets of sample names + family names + claimed names + unknown names; besides the '
+                'objects made per query on the final registry, 3 restricted-registry objects per history are made after a '
+                'random number of calls, kept, and collected through after every later call. An '
                 'evaluation is one (registry, name set); non-trivial when the restricted result is non-empty and a proper '
                 'part of the full collection; distinct by (full collection, name set)')
     rn = Runner(ctx)
+    for case in KEPT_CORPUS:
+        rn.one(case, n_random_sets=2)
     for case, names in FIXED:
         subsets = [list(s) for k in range(len(names) + 1) for s in itertools.combinations(names, k)]
         rn.one(case, namesets=subsets)
     ctx.extra['exhaustive_block'] = {'registries': len(FIXED), 'names': 8, 'subsets_each': 256}
+    for _ in range(300 if ctx.tier == 'quick' else 3000):
+        run_reentrant(rn, reentrant_case(ctx.rng))
     n = 500 if ctx.tier == 'quick' else 8000
     if ctx.broken:
         n *= 3
@@ -347,9 +534,15 @@ def run(ctx):
 def replay(ctx, case):
     c = case.get('case', case)
     rn = Runner(ctx)
-    rn.one(c, namesets=c.get('namesets') or [])
+    if c.get('kind') == 'reentrant':
+        run_reentrant(rn, c)
+        print('re-entrant case:', c)
+        for f in ctx.failures:
+            print('REPLAY-FAIL', f['sig'], f['what'])
+        return 1 if ctx.failures else 0
+    rn.one(c, namesets=c.get('namesets') or [], watch=c.get('watch') or [])
     rn.flush()
-    print('history:', ' '.join(map(base.enc_op, c['ops'])), '| name sets:', c.get('namesets'))
+    print('history:', ' '.join(map(base.enc_op, c['ops'])), '| name sets:', c.get('namesets'), '| kept objects (made after k calls, names):', c.get('watch'))
     for f in ctx.failures:
         print('REPLAY-FAIL', f['sig'], f['what'])
     for d in ctx.divergences:
